@@ -80,6 +80,7 @@ class Bounds:
         self.qualifiers = False      # const / unsafe / extern on the fn
         self.deps_kinds = None       # restrict the top-level alternatives of the dependency type
         self.deps_inner_kinds = None # ... and those below a `&` / parenthesis
+        self.pat_kinds = None        # restrict the alternatives of a parameter pattern (labels of Gen.pattern)
         self.fixed = {}
         for k, v in kw.items():
             assert hasattr(self, k), k
@@ -186,6 +187,9 @@ class Gen:
             labels.append('&p')
             alts.append(lambda ex: A.pat_ident(self.binding(ex, key + '.id', default), subpat=self.pattern(key + '.sub', default + 's', depth + 1)))
             labels.append('x @ p')
+        if B.pat_kinds is not None:
+            keep = [i for i, l in enumerate(labels) if l in B.pat_kinds]
+            alts, labels = [alts[i] for i in keep], [labels[i] for i in keep]
         return choice(key, alts, labels)
 
     # ---- dependency type -------------------------------------------------------------------
@@ -302,7 +306,7 @@ class Gen:
     def param(self, key, j):
         A = self.A
         return A.enum('FnArg', 'Typed', A.node('PatType', attrs=self.attrs(key + '.attrs', self.B.max_param_attrs, nested=True),
-                                               pat=Obj('Box', None, [self.pattern(key + '.pat', f'p{j}')]),
+                                               pat=Obj('Box', None, [self.pattern(key + '.pat', ['pz', 'py', 'pb', 'pa', 'pe'][j % 5])]),
                                                ty=Obj('Box', None, [self.lazy_type(key + '.ty')])))
 
     def inputs(self, key):
@@ -539,7 +543,7 @@ def trait_attr(gen, key, sl):
     dk = choice(key + '.delegate_by', [table[k] for k in kinds], list(kinds))
     it_alts = sl.get('impl_trait', ('none', 'some'))
     itab = {'none': lambda ex: NONE(),
-            'some': lambda ex: Some(Obj('ImplTrait', None, [gen.visibility(key + '.impl_trait.vis', ('inherited', 'pub')), A.ident('TrImpl')]))}
+            'some': lambda ex: Some(Obj('ImplTrait', None, [gen.visibility(key + '.impl_trait.vis', ('inherited', 'pub', 'pub_crate')), A.ident('TrImpl')]))}
     it = choice(key + '.impl_trait', [itab[k] for k in it_alts], list(it_alts))
     opts = gen.opts(key + '.opts', sl.get('opts_only', ('unimock', 'mockall', 'mock_api', 'future_send')))
     return ssetup.local_node(gen.prog, 'EntraitTraitAttr', impl_trait=it, opts=opts, delegation_kind=dk, crate_idents=gen.crate_idents())
